@@ -171,8 +171,24 @@ def c17_corruptions(trace):
             e["res"]["ok"] = True
             out.append(("result of the non-whitelisted deploy of line %d" % (i + 1), trace[:i] + [json.dumps(e)] + trace[i + 1:]))
             break
-    if len(out) < 3:
-        raise Infra("self-test: the first trace offers nothing to corrupt (%d of 3)" % len(out))
+    # (d) the top-level empty-calldata probe of a registered contract answers like a plain account in one mode
+    for i, ln in enumerate(trace):
+        e = json.loads(ln)
+        regd = sorted(e["reg"]["meta"])
+        if e.get("full") and regd and regd[0] in e["probe"]:
+            e["probe"][regd[0]]["e0"][0] = "empty|empty"
+            out.append(("probe cell %s/e0/deliver (empty calldata) of line %d" % (regd[0], i + 1), trace[:i] + [json.dumps(e)] + trace[i + 1:]))
+            break
+    # (e) one wei left at a registered contract by the value probes
+    for i, ln in enumerate(trace):
+        e = json.loads(ln)
+        regd = sorted(e["reg"]["meta"])
+        if e.get("full") and regd and regd[0] in e.get("bal", {}):
+            e["bal"][regd[0]][1] += 1
+            out.append(("balance of %s after the value probes of line %d" % (regd[0], i + 1), trace[:i] + [json.dumps(e)] + trace[i + 1:]))
+            break
+    if len(out) < 5:
+        raise Infra("self-test: the first trace offers nothing to corrupt (%d of 5)" % len(out))
     return out
 
 
@@ -253,21 +269,26 @@ def check_c17(pid, tier, seed, replay):
                          "SetDisabled(each registered)} up to depth %s from each of 6 genesis configurations (exhaustive), plus %d random "
                          "sequences of %d operations with edge-case names/symbols/decimals/denoms, Retype and protocol-version fabrication, and 3 "
                          "scripted scenarios (version downgrade refused, disable/enable, retype, redeploy, whitelist emptied / replaced); "
+                         "probe inputs: name(), bech32 prefix view, EMPTY calldata with value 0 and 1, 1-3 byte calldata, top-level and through CALL / "
+                         "STATICCALL / DELEGATECALL / CALLCODE proxies, plus the balance every candidate gains from the value probes; "
                          "evaluations = probe cells judged (address x mode x input x route); non-trivial = accepted (state-changing) operations"
                          % ("/".join(str(dp) for _, dp in sz["tree"]), sz["random"], sz["rlen"]))
         v.cov["samples"] = [json.loads(x).get("txt") for x in traces[0][1:6]]
         # binding self-test on the first tree
         first = traces[0]
         tests = []
-        for what, bad in c17_corruptions(first):
-            rs = validate_lines(w, "selftest%d" % len(tests), "TraceCpcRegistry", C17_CFG, bad)
+        corr = c17_corruptions(first)
+        with concurrent.futures.ThreadPoolExecutor(max_workers=len(corr)) as ex:
+            results = list(ex.map(lambda kb: validate_lines(w, "selftest%d" % kb[0], "TraceCpcRegistry", C17_CFG, kb[1][1]), enumerate(corr)))
+        for (what, _), rs in zip(corr, results):
             if rs["err"] is None:
                 raise Infra("binding self-test failed (binding vacuous): corrupted %s was accepted" % what)
             tests.append("%s -> %s/%s" % (what, rs["err"][1], rs["err"][2]))
             log("binding self-test: corrupted %s rejected with %s/%s" % (what, rs["err"][1], rs["err"][2]))
         v.cov["selftest"] = tests
         need = ["op.DeployErc20.accepted", "op.DeployErc20.rejected", "op.DeployStaking.accepted", "op.UpdateParams.accepted",
-                "op.UpdateParams.rejected", "op.SetDisabled.accepted", "probe.runs", "probe.refused", "probe.absent", "probe.std"]
+                "op.UpdateParams.rejected", "op.SetDisabled.accepted", "probe.runs", "probe.refused", "probe.absent", "probe.std",
+                "probe.registered-toplevel-empty-calldata"]
         missing = [k for k in need if not cov_total.get(k)]
         if missing and not v.violations:
             raise Infra("conformance run vacuous: outcome classes never seen: %s" % missing)
